@@ -190,7 +190,7 @@ Proof.
   destruct (has_st c TL b).
   - destruct (promote (filter Q (trs b))) as [k2 ok] eqn:E. destruct ok; cbn [trs].
     + change k2 with (fst (k2, true)). rewrite <- E. apply promote_keeps; auto.
-      intros c0 H. unfold Q in *. cbn in *. rewrite orb_false_r in *. rewrite H. reflexivity.
+      all: try (intros c0 H; unfold Q in *; cbn in *; rewrite orb_false_r in *; rewrite H; reflexivity).
     + apply forallb_filter2. exact K.
   - cbn [trs]. exact K.
 Qed.
